@@ -29,6 +29,12 @@ def valid_files(rng, tier):
         files.append(bytes(f))
     # also a structurally sensible one
     files.append(make_file([(3, b"hello"), (1, bytes([10, 0, 0, 0, 0, 0, 0, 0, 0])), (3, rand_bytes(rng, 300))], 2, True))
+    # the checksum bit together with other (unassigned) feature bits: the checksum must still be verified
+    for feat in (0x03, 0x81, 0xff, 0x11):
+        payload = rand_bytes(rng, rng.choice([30, 150, 246]))
+        f = bytearray(b"skyb\x02" + bytes([feat]) + b"\0\0\0\0" + payload)
+        f[6:10] = ap_crc32(f).to_bytes(4, "little")
+        files.append(bytes(f))
     return files
 
 
